@@ -90,6 +90,9 @@ def judge(t, err, logA, tol, sig0, where, add, counters, crit=None, ctx=None):
         ok = t >= 1.0
     elif t <= 0.0:
         ok = logA < -700.0
+    elif t < 2.3e-308:
+        # a subnormal threshold carries only a few bits: it is right when exp(log A) is subnormal too
+        ok = -746.0 < logA < -707.0
     else:
         ok = abs(math.log(t) - logA) <= tol * max(1.0, abs(logA))
     if 0.0 < t < 1.0:
@@ -223,8 +226,10 @@ def task_npt(arg):
                         t_iso, err = capture(crit, ctx)
                         judge(t_iso, err, logA_npt, 1e-9, "C02/isobaric", where, add, counters, crit, ctx)
                         # isotension, hydrostatic stress: identical to isobaric
-                        for sname in ("hydrostatic", "zero", "diag", "sheared", "nonsymmetric"):
+                        for sname in ("hydrostatic", "zero", "diag", "sheared", "nonsymmetric", "integer-zero", "integer-diag"):
                             S = {
+                                "integer-zero": np.zeros((3, 3), dtype=int),  # a stress the user wrote with integer entries
+                                "integer-diag": np.diag([1, 0, -1]),
                                 "nonsymmetric": np.array([[0.01, 0.004, 0.0], [0.001, 0.02, -0.003], [0.002, 0.0, 0.005]]),
                                 "hydrostatic": P * np.eye(3),
                                 "zero": np.zeros((3, 3)),
@@ -234,6 +239,7 @@ def task_npt(arg):
                             if tier == "quick" and sname == "diag":
                                 continue
                             ctx.external_stress = S.copy()
+                            S = np.asarray(S, dtype=float)
                             crit = IsotensionCriteria()
                             t, err = capture(crit, ctx)
                             if sname == "hydrostatic":
@@ -397,6 +403,8 @@ REAL_SPECS = [
     dict(ens="HamiltonianCanonical", atoms="A3", table=[["h", "H"]], calc="harmonic", T=300.0, depth=2, check=True, tag="hamiltonian-vetoed-attempts"),
     dict(ens="HamiltonianCanonical", atoms="A3", table=[["h", "H1"], ["d", "D_ball"]], calc="quartic", T=500.0, depth=2, decos=["momenta"], tag="hamiltonian+displacement"),
     dict(ens="Canonical", atoms="M", table=[["r", "D_rot"], ["t", "D_trans"]], calc="harmonic", T=300.0, depth=2, check=True, tag="canonical-molecule"),
+    dict(ens="Canonical", atoms="A3", table=[["d", "D_ball"]], calc="harmonic", T=1500.0, depth=3, decos=["hookean"], tag="canonical-energy-adjusting-constraint"),
+    dict(ens="Isobaric", atoms="A3", table=[["c", "C_iso"], ["d", "D_ball"]], calc="harmonic", T=1500.0, P=0.005, depth=2, decos=["hookean"], tag="isobaric-energy-adjusting-constraint"),
     dict(ens="Isobaric", atoms="A3", table=[["c", "C_iso"], ["d", "D_ball"]], calc="harmonic", T=300.0, P=0.005, depth=2, check=True, tag="isobaric+displacement"),
     dict(ens="Isobaric", atoms="T3", table=[["c", "C_aniso_ns"]], calc="harmonic", T=300.0, P=0.005, depth=2, tag="isobaric-unscaled"),
 ]
@@ -483,8 +491,22 @@ def task_real(spec):
                 continue
             x0 = arr(t.pre, "positions")
             n0 = t.pre["n"]
-            e_old = calc.energy_of(x0) if n0 else 0.0
-            e_new = calc.energy_of(ac["positions"]) if ac["n"] else 0.0
+            if "hookean" in spec.get("decos", ()):
+                # the energy the statement speaks of is the one the Atoms object reports (calculator
+                # plus energy-adjusting constraints): evaluate it on a copy with a fresh calculator
+                def e_of(x, cell):
+                    a = info["ref"].copy()
+                    a.calc = info["calc"]
+                    a.set_cell(cell, scale_atoms=False)
+                    a.positions = x
+                    return float(a.get_potential_energy())
+
+                ck0 = t.pre["cell"]
+                e_old = e_of(x0, np.frombuffer(ck0[2], dtype=ck0[0]).reshape(ck0[1]))
+                e_new = e_of(ac["positions"], ac["cell"])
+            else:
+                e_old = calc.energy_of(x0) if n0 else 0.0
+                e_new = calc.energy_of(ac["positions"]) if ac["n"] else 0.0
             dE = e_new - e_old
             thr = t.thresholds[-1]
             where = f"{tag}: trial of {t.name}, history {js([[x.name, x.verdict] for x in trials])}"
